@@ -20,6 +20,10 @@
 #include "utils.h"
 #include "private/implementations.h"
 #include "private/mutex.h"
+#ifdef SODIUM_VERIF
+# include "private/verif.h"
+__attribute__((visibility("default"))) sodium_verif_hook_fn _sodium_verif_hook;
+#endif
 
 static volatile int initialized;
 static volatile int locked;
@@ -30,15 +34,30 @@ sodium_init(void)
     if (sodium_crit_enter() != 0) {
         return -1; /* LCOV_EXCL_LINE */
     }
+#ifdef SODIUM_VERIF
+    SODIUM_VERIF_EVENT("init", "enter", "");
+#endif
     if (initialized != 0) {
+#ifdef SODIUM_VERIF
+        SODIUM_VERIF_EVENT("init", "already", "");
+#endif
         if (sodium_crit_leave() != 0) {
             return -1; /* LCOV_EXCL_LINE */
         }
         return 1;
     }
     _sodium_runtime_get_cpu_features();
+#ifdef SODIUM_VERIF
+    SODIUM_VERIF_EVENT("init", "cpu", "");
+#endif
     randombytes_stir();
+#ifdef SODIUM_VERIF
+    SODIUM_VERIF_EVENT("init", "stir", "");
+#endif
     _sodium_alloc_init();
+#ifdef SODIUM_VERIF
+    SODIUM_VERIF_EVENT("init", "alloc", "");
+#endif
     _crypto_pwhash_argon2_pick_best_implementation();
     _crypto_generichash_blake2b_pick_best_implementation();
     _crypto_onetimeauth_poly1305_pick_best_implementation();
@@ -48,6 +67,9 @@ sodium_init(void)
     _crypto_aead_aegis128l_pick_best_implementation();
     _crypto_aead_aegis256_pick_best_implementation();
     initialized = 1;
+#ifdef SODIUM_VERIF
+    SODIUM_VERIF_EVENT("init", "done", "");
+#endif
     if (sodium_crit_leave() != 0) {
         return -1; /* LCOV_EXCL_LINE */
     }
